@@ -458,6 +458,11 @@ def _gen_own(args):
     prog, exp = gen.make_program(random.Random(seed), OWN_FEATURES, size)
     if prog is None:
         return None
+    try:
+        prog.files()
+    except (TypeError, ValueError, KeyError, IndexError):
+        # the generator left a hole (None) in code the model never executes: the program cannot be printed
+        return None
     return prog, exp
 
 
